@@ -148,9 +148,10 @@ pub fn glue(_thorough: bool) -> Report {
         let mut bc = BuildConfig::new("heroku/builder:24", &fixture);
         bc.buildpacks(bps.iter().map(|b| BuildpackReference::Other(b.to_string())).collect::<Vec<_>>());
         bc.env("BUILD_ONLY", "s3cr=t").envs([("BP_LOG_LEVEL", "debug")]);   // env() followed by envs(): both kinds of call ADD
-        if preprocess { bc.app_dir_preprocessor(|p| std::fs::write(p.join("extra"), "x").unwrap()); }
+        // the preprocessor adds a file AND rewrites an existing one in place: both only ever touch the private copy
+        if preprocess { bc.app_dir_preprocessor(|p| { std::fs::write(p.join("extra"), "x").unwrap(); std::fs::write(p.join("Procfile"), "web: rewritten by the preprocessor").unwrap(); }); }
         let mut cc = ContainerConfig::new();
-        if variant == 0 { cc.entrypoint("web").env("PORT", "8080").envs([("GREETING", "a=b c")]).expose_port(8080).bind_mount("/host/test cache", "/workspace/cache"); } else { cc.command(["bash", "-c", "echo hi"]).env("ONLY_IN_CONTAINER", "").expose_port(80).expose_port(443).bind_mount("/host/a", "/data").bind_mount("/host/b", "/etc/b"); }
+        if variant == 0 { cc.entrypoint("web").env("PORT", "8080").envs([("GREETING", "a=b c")]).expose_port(8080).bind_mount("/host/test cache", "/workspace/cache"); } else { cc.command(["echo", "an earlier command that the next call replaces"]); cc.command(["bash", "-c", "echo hi"]).env("ONLY_IN_CONTAINER", "").expose_port(80).expose_port(443).bind_mount("/host/a", "/data").bind_mount("/host/b", "/etc/b"); }
         let _ = std::fs::remove_file(root.join("cmd.log.path"));
         let input = format!("preprocessor {preprocess}, buildpacks {bps:?}, container variant {variant}");
         let res = std::panic::catch_unwind(std::panic::AssertUnwindSafe(|| { TestRunner::default().build(&bc, |ctx| { ctx.start_container(&cc, |_c| {}); }); }));
@@ -188,7 +189,7 @@ pub fn glue(_thorough: bool) -> Report {
         let seen = std::fs::read_to_string(root.join("cmd.log.path")).unwrap_or_default();
         let want_seen = if preprocess { "files=Procfile extra \n" } else { "files=Procfile \n" };
         if seen != want_seen { r.violation("glue_pack_path", "the directory passed to pack build exists when pack runs and holds the app (with the preprocessor's changes in the private copy)", input.clone(), want_seen.trim().into(), seen.trim().into()); }
-        if std::fs::read_dir(&fixture).unwrap().count() != 1 { r.violation("glue_fixture", "the fixture stays untouched", input.clone(), "only Procfile".into(), "changed".into()); }
+        if std::fs::read_dir(&fixture).unwrap().count() != 1 || std::fs::read_to_string(fixture.join("Procfile")).ok().as_deref() != Some("web: true") { r.violation("glue_fixture", "the fixture stays untouched (no file added, no file's content changed)", input.clone(), "only Procfile, content \"web: true\"".into(), format!("{} entries, Procfile = {:?}", std::fs::read_dir(&fixture).unwrap().count(), std::fs::read_to_string(fixture.join("Procfile")).unwrap_or_default())); let _ = std::fs::write(fixture.join("Procfile"), "web: true"); }
     } } }
     // ---- a build whose pack invocation FAILS as expected: still exactly ONE pack build invocation (no silent retry)
     {
